@@ -1,0 +1,5 @@
+//go:build !verif
+
+package server
+
+func verifPoint(string) {}
